@@ -54,10 +54,18 @@ def band(draw, max_chans=64, min_chans=1):
     ref_kind = draw(st.sampled_from(["ch1", "max", "min", "center", "numeric"]))
     ref = ref_kind
     if ref_kind == "numeric":
-        k = draw(st.floats(0, 1, allow_nan=False))
+        # a numeric reference inside the range of channel centres, on a band edge (ftop / fbottom: half a channel
+        # outside), or well outside the band: every delay then has the same sign
+        k = draw(st.one_of(st.floats(0, 1, allow_nan=False), st.sampled_from([-0.25, 1.25, -1.0, 2.0, "ftop", "fbottom"])))
         lo = min(ch["fch1"], ch["fch1"] + (nchans - 1) * ch["foff"])
         hi = max(ch["fch1"], ch["fch1"] + (nchans - 1) * ch["foff"])
-        ref = lo + k * (hi - lo)
+        if k == "ftop":
+            ref = hi + 0.5 * abs(ch["foff"])
+        elif k == "fbottom":
+            ref = lo - 0.5 * abs(ch["foff"])
+        else:
+            ref = lo + k * max(hi - lo, abs(ch["foff"]))
+        ref = max(ref, 10.0)
     return {"nchans": nchans, "fch1": ch["fch1"], "foff": ch["foff"], "tsamp": tsamp, "ref": ref, "subsample_dm": draw(st.booleans())}
 
 
